@@ -106,6 +106,7 @@ JUNK_VALUES = [
     ('list', lambda: [1, 2.5, 'a']), ('tuple', lambda: (0.05, 0.5, 0.05)), ('array', lambda: np.array([0.4, 0.2, 0.1])),
     ('intarray', lambda: np.arange(4)), ('dict', lambda: {'mode': 'mean', 'stat_length': 2}),
     ('nested_tuple', lambda: {'t': (1, 2), 'a': np.array([1.5, 2.5])}), ('emptylist', lambda: []), ('inf', lambda: float('inf')),
+    ('list_of_tuples', lambda: [(1, 2), (3, 4)]), ('tuple_of_tuples', lambda: ((2, 3),)), ('tuple_in_list', lambda: [0.5, (1, 2)]),
 ]
 
 
@@ -119,7 +120,8 @@ def valid_edits(variant):
          ('envelope_opts/interp_method', 'pchip'), ('envelope_opts/interp_method', 'mono_pchip'),
          ('extrema_opts/pad_width', 3), ('extrema_opts/pad_width', 1), ('extrema_opts/parabolic_extrema', True),
          ('extrema_opts/mag_pad_opts/stat_length', 2), ('extrema_opts/mag_pad_opts', {'mode': 'mean'}),
-         ('extrema_opts/loc_pad_opts/reflect_type', 'odd')]
+         ('extrema_opts/loc_pad_opts/reflect_type', 'odd'),
+         ('extrema_opts/mag_pad_opts/stat_length', ((1, 1),)), ('extrema_opts/mag_pad_opts/stat_length', [(2, 2)])]
     if variant == 'mask_sift':
         e += [('mask_freqs', 0.2), ('mask_freqs', [0.3, 0.1, 0.05]), ('mask_freqs', np.array([0.25, 0.12, 0.06, 0.03])),
               ('mask_freqs', 'if'), ('mask_freqs', (0.3, 0.15)), ('mask_amp', 2), ('mask_amp', np.array([1, .5, 2, 1, 1, 1, 1, 1, 1.])),
